@@ -400,6 +400,13 @@ Section Breakdown.
     | _ :: r => idle_last r
     end.
 
+  (* every CPU channel is written at most once by one event *)
+  Fixpoint once (b : list (cin * value)) : bool :=
+    match b with
+    | [] => true
+    | (c, _) :: r => negb (writes_to c r) && once r
+    end.
+
   Definition sel_eqb (a b : sel) : bool :=
     match a, b with
     | None, None => true
@@ -411,6 +418,9 @@ Section Breakdown.
     is_vnull (w_ss st) && is_vnull (w_tt st) && is_vnull (w_tr st) && sel_eqb (w_sel0 st) None.
 
   (* [batch_ok st b]:
+     - each of the three CPU channels is written at most once (they are outputs of tracking
+       muxes whose select is the CPU's running thread and whose inputs are that thread's
+       channels; no event changes both);
      - ss/tt never enter the dirty list after idle (model_cpu.c connects the track muxes in
        channel-enum order, subsystem and task type before idle, and no single event writes a
        thread's idle channel together with another one);
@@ -420,7 +430,7 @@ Section Breakdown.
        would choose (the select callback of mux0 hangs on ss only). *)
   Definition batch_ok (st : wires) (b : list (cin * value)) : bool :=
     let st' := fst (apply_writes b st []) in
-    idle_last b &&
+    once b && idle_last b &&
     (if mux0_unevaluated st then match b with [] => true | _ => writes_to CSS b end else true) &&
     (if writes_to CSS b then true
      else sel_eqb (select_tr (w_ss st') (w_tt st')) (select_tr (w_ss st) (w_tt st))).
